@@ -171,7 +171,8 @@ J gen_hostile_cli(uint64_t seed, const J &ov)
 	if (focus.empty()) { static const char *f[] = {"any", "any", "login", "handshake", "tunnel"}; focus = f[r.range(0, 4)]; }
 	h.set("focus", focus);
 	h.set("p", focus == "login" ? 1.0 : focus == "spoof" ? 0.0 : 0.02 + r.uniform() * 0.3);
-	if (focus == "spoof") { J &c0 = cl.a[0]; c0.set("raw", false); if (c0.gets("qtype").empty() && r.chance(0.8)) c0.set("qtype", "NULL"); cfg.set("clients", cl); }
+	bool spoof_raw = focus == "spoof" && ov.getb("raw", false);
+	if (focus == "spoof") { J &c0 = cl.a[0]; c0.set("raw", spoof_raw); if (c0.gets("qtype").empty() && r.chance(0.8)) c0.set("qtype", "NULL"); cfg.set("clients", cl); }
 	h.set("keep_orig", r.chance(0.5));     // also deliver the genuine answer afterwards (racing spoofer) or suppress it (on-path)
 	h.set("key", (long long)(r.next() >> 1));
 	// fragment flood: from some tunnel answer on, every answer becomes the next fragment (same seqno, ascending numbers, no last
@@ -190,6 +191,21 @@ J gen_hostile_cli(uint64_t seed, const J &ov)
 		op.set("spoof_ip", "10.9.0.1"); op.set("sport", 53);
 		Bytes q = dns_build_query((uint16_t)r.range(0, 65535), std::string(1, "pPvVlLyYzZrRnNoOsSiI0a"[r.range(0, 21)]) + "abc." + dom, QT_NULL, false);
 		op.set("hex", hexs(hostile_answer(r, q, 0)));
+		if (spoof_raw && r.chance(0.6)) {
+			// raw-mode frames that are not for this client: shorter than the 4-byte header (down to the bare ident), a wrong
+			// ident, or another user's id (the only client of this scenario is user 0); valid compressed payloads behind them
+			Bytes pl; { Bytes x = r.bytes((size_t)r.range(20, 600)); x[0] = 0; x[1] = 0; x[2] = 8; x[3] = 0; pl = z_compress(x); }
+			Bytes f = {0x10, 0xd1, 0x9e, (uint8_t)((2 << 4) | 0)};
+			switch (r.range(0, 5)) {
+			case 0: f.resize((size_t)r.range(0, 3)); break;
+			case 1: f.resize(3); break;
+			case 2: f[(size_t)r.range(0, 2)] ^= (uint8_t)(1 << r.range(0, 7)); f.insert(f.end(), pl.begin(), pl.end()); break;
+			case 3: f[3] = (uint8_t)((2 << 4) | r.range(1, 15)); f.insert(f.end(), pl.begin(), pl.end()); break;
+			case 4: f[3] = (uint8_t)((r.range(1, 3) << 4) | r.range(1, 15)); break;
+			default: f[3] = (uint8_t)((2 << 4) | r.range(1, 15)); f.insert(f.end(), pl.begin(), pl.begin() + (long)std::min<size_t>(pl.size(), (size_t)r.range(0, 8))); break;
+			}
+			op.set("hex", hexs(f)); op.set("unmatched", false);
+		}
 		ops.push(op);
 	}
 	uint64_t ser = seed % 1000 * 100000;
